@@ -25,3 +25,33 @@ def run_fragments(rep, contracts, tier, clause_filter=None, only_cfg=None):
     for c in contracts:
         rep.functions.add(f'sourcer.expressions.{c.cls_name}._compile / always_succeeds / can_partially_succeed')
     return res
+
+
+def run_rt(rep, contracts, tier):
+    from pyvc.rtver import verify_rt
+    both = tier == 'thorough'
+    only = os.environ.get('VERIF_ONLY_UNIT')
+    jobs = []
+    for c in contracts:
+        for cfg in c.configs(tier):
+            if only and not only.startswith(f'runtime:{c.fn_name}['):
+                continue
+            jobs.append(('call', (verify_rt, (c, cfg, both))))
+    res = run_jobs(jobs)
+    rep.add_fragment_results(res)
+    for c in contracts:
+        rep.functions.add(f'run-time template {c.fn_name} (sourcer/translator.py)')
+    return res
+
+
+def run_vcs(rep, unit, vcs, axioms=()):
+    """discharge hand-stated lemma VCs (named, with explicit hypotheses)"""
+    from pyvc.solve import discharge
+    for vc in vcs:
+        v = discharge(vc, list(axioms))
+        verdict = {'unsat': 'proved', 'sat': 'failed'}.get(v.status, 'unknown')
+        from pyvc.report import Obligation
+        rep.obls.append(Obligation(unit, vc.name, 'smt', verdict, v.solver, v.time,
+                                   detail={'model': str(v.model)[:1500]} if verdict != 'proved' else None))
+        rep.units.setdefault(unit, {'vcs': 0})
+        rep.units[unit]['vcs'] += 1
